@@ -50,6 +50,9 @@ pub enum FdEv {
     /// Heartbeat <= highest seen (equal if back == 0); delivered to the twin only.
     Stale { dt: Dt, back: u8 },
     Eval { dt: Dt },
+    /// External catch-up call for the member (a strictly higher max version each time, so that it
+    /// is applied): not a heartbeat observation. C10: on the observed node; C11: on the twin only.
+    CatchUp { dt: Dt },
 }
 
 #[derive(Clone, Debug, Serialize, Deserialize)]
@@ -152,6 +155,7 @@ pub fn exec_fd(case: &FdCase, tally: &mut Tally, prop: &str) -> Result<(), Failu
         let mut stale_between_straddle = false;
         let mut stale_since_eval = false;
         let mut accepted_intervals = 0usize;
+        let mut catchups = 0u64;
         let t_ns = cfg.deadline_ns();
         for (step, ev) in case.events.iter().enumerate() {
             match *ev {
@@ -196,6 +200,23 @@ pub fn exec_fd(case: &FdCase, tally: &mut Tally, prop: &str) -> Result<(), Failu
                         stale_since_eval = true;
                         tally.label("stale_digest");
                     }
+                }
+                FdEv::CatchUp { dt } => {
+                    let d = dt_ns(dt, cfg, now, fresh_times.last().copied());
+                    advance_ns(d).await;
+                    now += d as u128;
+                    catchups += 1;
+                    let r = guard(|| {
+                        twin.reset_node_state_if_update(&xid, Vec::new().into_iter(), catchups, 0);
+                        if prop == "C10" {
+                            main.reset_node_state_if_update(&xid, Vec::new().into_iter(), catchups, 0);
+                        }
+                    });
+                    if let Err(p) = r {
+                        return vio(&format!("{prop}/{}", p.signature()), p.describe());
+                    }
+                    stale_since_eval = true;
+                    tally.label("catch_up_call");
                 }
                 FdEv::Eval { dt } => {
                     let d = dt_ns(dt, cfg, now, fresh_times.last().copied());
@@ -407,6 +428,7 @@ fn dt_strategy() -> impl Strategy<Value = Dt> {
         1 => Just(Dt::Zero),
         1 => any::<u16>().prop_map(Dt::Eps),
         8 => any::<u16>().prop_map(Dt::FracMax),
+        1 => Just(Dt::FracMax(65_535)),
         4 => (0u16..6000).prop_map(Dt::FracMax),
         1 => any::<u16>().prop_map(Dt::JustAboveMax),
         1 => (0u8..8).prop_map(Dt::Silence),
@@ -428,7 +450,8 @@ fn event_strategy(with_stale: bool) -> BoxedStrategy<FdEv> {
     let eval = eval_dt_strategy().prop_map(|dt| FdEv::Eval { dt }).boxed();
     if with_stale {
         let stale = (prop_oneof![3 => dt_strategy(), 1 => (-1i8..=1).prop_map(Dt::ToDeadline)], 0u8..5).prop_map(|(dt, back)| FdEv::Stale { dt, back }).boxed();
-        prop_oneof![6 => fresh, 4 => stale, 4 => eval].boxed()
+        let catchup = prop_oneof![3 => dt_strategy(), 1 => (-1i8..=1).prop_map(Dt::ToDeadline)].prop_map(|dt| FdEv::CatchUp { dt }).boxed();
+        prop_oneof![12 => fresh, 8 => stale, 8 => eval, 1 => catchup].boxed()
     } else {
         prop_oneof![7 => fresh, 3 => eval].boxed()
     }
@@ -443,10 +466,10 @@ pub fn acc_strategy(max_arrivals: usize) -> impl Strategy<Value = AccCase> {
         prop_oneof![2 => 1usize..=4, 2 => 5usize..=50, 1 => 51usize..=1000],
         log_uniform_ns(),
         log_uniform_ns(),
-        prop_oneof![3 => 20_000u16..=65_535, 1 => 4_200u16..20_000],
-        1u16..=65_535,
+        prop_oneof![3 => 20_000u16..=65_535, 1 => 4_200u16..20_000, 1 => Just(65_535u16)],
+        prop_oneof![4 => 1u16..=65_535, 1 => Just(65_535u16)],
         prop_oneof![2 => 0u32..1_000, 2 => 0u32..50_000_000, 1 => 50_000_000u32..1_000_000_000],
-        proptest::collection::vec((any::<u16>(), proptest::option::weighted(0.7, any::<u16>())), 4..=max_arrivals),
+        proptest::collection::vec((prop_oneof![4 => any::<u16>(), 1 => Just(65_535u16), 1 => Just(0u16)], proptest::option::weighted(0.7, prop_oneof![4 => any::<u16>(), 1 => Just(65_535u16)])), 4..=max_arrivals),
         prop_oneof![1 => Just(vec![]), 1 => proptest::collection::vec(any::<u16>(), 1..3)],
     )
         .prop_map(|(window, max_interval_ns, initial_interval_ns, a_frac, b_frac, margin_ppb, arrivals, outages)| AccCase { window, max_interval_ns, initial_interval_ns, a_frac, b_frac, margin_ppb, arrivals, outages })
